@@ -18,6 +18,48 @@ from ..program import rel, AnalysisError
 POLY = "functions.plscf.ac2mp_poly"
 
 
+def _decide_size_tests(prog, pf, x):
+    """conditional expressions whose test compares two sizes (polynomials in channel counts / model order, all >= 1) are decided when
+    the difference is identically zero or has coefficients of one sign:  Nch <= Nch  is true,  (n + 1) * Nch <= 0  is false"""
+    from .. import symidx
+
+    def sign(p_):
+        """'0' / '+' / '-' for polynomials in positive integers, None if not determined"""
+        if not p_.t:
+            return "0"
+        if any(any(e_ < 0 for s_, e_ in k) for k in p_.t):
+            return None
+        vs = list(p_.t.values())
+        if all(v > 0 for v in vs):
+            return "+"
+        if all(v < 0 for v in vs):
+            return "-"
+        return None
+
+    class T(ast.NodeTransformer):
+        def visit_IfExp(self, n):
+            self.generic_visit(n)
+            t = n.test
+            if isinstance(t, ast.Compare) and len(t.ops) == 1 and isinstance(t.ops[0], (ast.LtE, ast.Lt, ast.GtE, ast.Gt, ast.Eq, ast.NotEq)):
+                se = symidx.SymEval(prog, pf)
+                a, b = se.ev(astq.fold(t.left)), se.ev(astq.fold(t.comparators[0]))
+                if a is not None and b is not None:
+                    sg = sign(a - b)
+                    op = t.ops[0]
+                    val = None
+                    if sg == "0":
+                        val = isinstance(op, (ast.LtE, ast.GtE, ast.Eq))
+                    elif sg == "+":
+                        val = isinstance(op, (ast.Gt, ast.GtE, ast.NotEq))
+                    elif sg == "-":
+                        val = isinstance(op, (ast.Lt, ast.LtE, ast.NotEq))
+                    if val is not None:
+                        return n.body if val else n.orelse
+            return n
+    import copy as _copy
+    return astq.fold(T().visit(_copy.deepcopy(x)))
+
+
 def constraint(prog, run):
     """R-constraint: the coefficient stack alpha is [I ; solution] for the low-order constraint (basis sign -1) and [solution ; I] for the
     high-order one (+1): the identity block sits at the constrained end, un-permuted.  A reversal of ALL rows of such a stack (a trick to
@@ -40,7 +82,7 @@ def constraint(prog, run):
         return isinstance(e, ast.Call) and astq.callee_name(prog, fi, e) in ("numpy.eye", "numpy.identity")
     for label, want_pos in (("LO", 0), ("HI", -1)):
         cfg = f"constr={label}"
-        pf = astq.PrunedFn(fi, {"constr": label, "sgn_basf": -1 if label == "LO" else 1})
+        pf = astq.PrunedFn(fi, {"constr": label, "sgn_basf": -1 if label == "LO" else 1}, subst=True)
         apps = [c for c in ast.walk(pf.node) if isinstance(c, ast.Call) and isinstance(c.func, ast.Attribute) and c.func.attr == "append" and isinstance(c.func.value, ast.Name)]
         rets = [r for r in ast.walk(pf.node) if isinstance(r, ast.Return) and isinstance(r.value, ast.Tuple)]
         first_list = rets[-1].value.elts[0].id if rets and isinstance(rets[-1].value.elts[0], ast.Name) else None
@@ -49,6 +91,7 @@ def constraint(prog, run):
             run.ob("R-constraint", fi.qual, "coefficient stack", None, "the appended denominator coefficients were not found", file=f, config=cfg)
             continue
         x = astq.expr_at(pf, target[0], target[0].args[0])
+        x = _decide_size_tests(prog, pf, x)
         # strip the final reshape into blocks
         while isinstance(x, ast.Call) and isinstance(x.func, ast.Attribute) and x.func.attr in ("reshape", "copy", "astype"):
             x = x.func.value
@@ -287,13 +330,35 @@ def blank(prog, run):
     run.ob("R-blank", fi.qual, "fn/xi are formed from the blanked eigenvalues", uses_blanked, "fn derives from the np.where result" if uses_blanked else "fn derives from the un-blanked eigenvalues", witness="unblanked", file=f, node=r)
     pp = prog.func("functions.plscf.pLSCF_poles")
     fp = rel(prog.mods[pp.mod].path)
-    inf = False
-    for n in ast.walk(pp.node):
-        if isinstance(n, ast.Assign) and isinstance(n.targets[0], ast.Subscript) and isinstance(n.targets[0].slice, ast.Compare):
-            c = n.targets[0].slice
-            if "inf" in astq.src(c) and isinstance(n.value, ast.Attribute) and n.value.attr.lower() == "nan":
-                inf = True
-    run.ob("R-blank", pp.qual, "infinite frequencies become NaN", inf, "`fn[fn == inf] = nan`" if inf else "no replacement of infinite frequencies", witness="missing", file=fp, node=pp.node)
+    # X[X == inf] = nan  /  X[np.isinf(X)] = nan  /  np.where(X == inf, nan, X)  /  np.where(np.isfinite(X), X, nan), in pLSCF_poles or a private helper
+    from ..program import FuncInfo
+    inf, mention, form = None, False, ""
+    fns_ = [pp] + [r_ for c_, r_ in prog.calls_in(pp) if isinstance(r_, FuncInfo) and r_.node.name.startswith("_") and r_.mod == pp.mod]
+
+    def infpred(c):
+        t = astq.src(c, 400)
+        pos_ = ("inf" in t and "==" in t) or "isinf(" in t or "isposinf(" in t
+        neg_ = "isfinite(" in t and not t.lstrip().startswith(("~", "np.logical_not", "not "))
+        inv_ = "isfinite(" in t and t.lstrip().startswith(("~", "np.logical_not"))
+        return "pos" if (pos_ or inv_) else ("neg" if neg_ else None)
+    for g_ in fns_:
+        for n in ast.walk(g_.node):
+            if "inf" in astq.src(n, 80) and isinstance(n, (ast.Compare, ast.Call)) and infpred(n):
+                mention = True
+            if isinstance(n, ast.Assign) and isinstance(n.targets[0], ast.Subscript) and infpred(n.targets[0].slice) == "pos":
+                ok_ = isinstance(n.value, ast.Attribute) and n.value.attr.lower() == "nan"
+                inf = ok_ if inf is None or ok_ is False else inf
+                form = astq.src(n, 60)
+            if isinstance(n, ast.Call) and astq.callee_name(prog, g_, n) == "numpy.where" and len(n.args) == 3 and infpred(n.args[0]):
+                kind = infpred(n.args[0])
+                repl = n.args[1] if kind == "pos" else n.args[2]
+                ok_ = isinstance(repl, ast.Attribute) and repl.attr.lower() == "nan"
+                inf = ok_ if inf is None or ok_ is False else inf
+                form = astq.src(n, 60)
+    if inf is None and not mention:
+        inf = False
+    run.ob("R-blank", pp.qual, "infinite frequencies become NaN", inf, f"`{form}`" if inf else ("no replacement of infinite frequencies" if inf is False and not form else f"`{form}`: form not recognised / not NaN"),
+           witness="missing" if not form else form, file=fp, node=pp.node)
 
 
 INVS = ("numpy.linalg.inv", "numpy.linalg.pinv", "scipy.linalg.inv", "scipy.linalg.pinv")
@@ -369,6 +434,70 @@ def units(prog, run):
     run.trusted |= set(CTX.used)
 
 
+def _nan_lit(e):
+    return (isinstance(e, ast.Attribute) and e.attr.lower() == "nan") or (isinstance(e, ast.Call) and astq.src(e).replace('"', "'") == "float('nan')")
+
+
+WRAPPERS = {"numpy.array", "numpy.asarray", "numpy.moveaxis", "numpy.transpose", "numpy.ascontiguousarray", "numpy.real", "list", "tuple"}
+
+
+def nan_padded(prog, fi, e, at, depth=3):
+    """is the table `e` (evaluated at `at` in fi) NaN where no data is written?  True: built by zip_longest(fillvalue=nan) or allocated
+    as np.full(shape, nan) and filled by stores; False: another fill value is visible; None: not recognised"""
+    from ..program import FuncInfo
+    if e is None or depth < 0:
+        return None
+    while True:
+        if isinstance(e, ast.Attribute) and e.attr in ("T", "real"):
+            e = e.value
+        elif isinstance(e, ast.Call) and isinstance(e.func, ast.Attribute) and e.func.attr in ("astype", "copy", "transpose", "reshape", "swapaxes"):
+            e = e.func.value
+        elif isinstance(e, ast.Call) and astq.callee_name(prog, fi, e) in WRAPPERS and e.args:
+            e = e.args[0]
+        else:
+            break
+    if isinstance(e, ast.Call):
+        nm = astq.callee_name(prog, fi, e)
+        if nm == "itertools.zip_longest":
+            fv = astq.kwarg(e, "fillvalue")
+            return _nan_lit(fv) if fv is not None else False
+        if nm == "numpy.full" and len(e.args) >= 2:
+            return True if _nan_lit(e.args[1]) else (False if isinstance(e.args[1], ast.Constant) else None)
+        if nm in ("numpy.zeros", "numpy.ones", "numpy.zeros_like", "numpy.ones_like"):
+            return False
+        if isinstance(e.func, ast.Starred):
+            return None
+        zl = [c for c in ast.walk(e) if isinstance(c, ast.Call) and astq.callee_name(prog, fi, c) == "itertools.zip_longest"]
+        if zl:
+            fv = astq.kwarg(zl[0], "fillvalue")
+            return _nan_lit(fv) if fv is not None else False
+        try:
+            r = prog.resolve_call(getattr(fi, "fi", fi), e)
+        except Exception:
+            r = None
+        if isinstance(r, FuncInfo):
+            rets = [n for n in ast.walk(r.node) if isinstance(n, ast.Return) and n.value is not None]
+            vals = [nan_padded(prog, r, x.value, x, depth - 1) for x in rets]
+            if vals and all(v is True for v in vals):
+                return True
+            if any(v is False for v in vals):
+                return False
+        return None
+    if isinstance(e, ast.Name):
+        # the allocation this name was given (element stores into it afterwards fill in the data)
+        node = getattr(fi, "node", None)
+        binds = [a for a in ast.walk(node) if isinstance(a, ast.Assign) and len(a.targets) == 1 and isinstance(a.targets[0], ast.Name) and a.targets[0].id == e.id]
+        other = [n for n in ast.walk(node) if isinstance(n, ast.Name) and n.id == e.id and isinstance(n.ctx, ast.Store)]
+        if len(binds) == 1 and len(other) == 1:
+            return nan_padded(prog, fi, binds[0].value, binds[0], depth - 1)
+        return None
+    if isinstance(e, ast.Subscript):
+        return nan_padded(prog, fi, e.value, at, depth - 1) if isinstance(e.slice, ast.Constant) else None
+    if isinstance(e, (ast.GeneratorExp, ast.ListComp)) and len(e.generators) == 1:
+        return nan_padded(prog, fi, e.elt, at, depth - 1)
+    return None
+
+
 def pad(prog, run):
     fi = prog.func("functions.plscf.pLSCF_poles")
     f = rel(prog.mods[fi.mod].path)
@@ -378,16 +507,17 @@ def pad(prog, run):
     r = rets[-1]
     for k, name in ((0, "Fn"), (1, "Xi"), (3, "Lambda")):
         x = astq.expr_at(fi, r, r.value.elts[k])
-        zl = [c for c in ast.walk(x) if isinstance(c, ast.Call) and astq.callee_name(prog, fi, c) == "itertools.zip_longest"]
-        ok = False
-        if zl:
-            fv = astq.kwarg(zl[0], "fillvalue")
-            ok = isinstance(fv, ast.Attribute) and fv.attr.lower() == "nan"
+        ok = nan_padded(prog, fi, x, r)
+        if ok is None:
+            ok = nan_padded(prog, fi, r.value.elts[k], r)
         run.ob("R-pad", fi.qual, f"{name} table padded with NaN", ok, f"`{astq.src(x, 80)}`", witness=astq.src(x, 70), file=f, node=r)
     # Phi: every per-order block is written into a NaN-filled array of the final height
     full = [c for c in ast.walk(fi.node) if isinstance(c, ast.Call) and astq.callee_name(prog, fi, c) == "numpy.full" and len(c.args) >= 2
             and isinstance(c.args[1], ast.Attribute) and c.args[1].attr.lower() == "nan"]
-    run.ob("R-pad", fi.qual, "Phi blocks padded with NaN", bool(full), f"{len(full)} NaN-filled allocation(s)", witness="missing", file=f, node=r)
+    okphi = True if full else nan_padded(prog, fi, astq.expr_at(fi, r, r.value.elts[2]), r)
+    if okphi is None:
+        okphi = nan_padded(prog, fi, r.value.elts[2], r)
+    run.ob("R-pad", fi.qual, "Phi blocks padded with NaN", okphi, f"{len(full)} NaN-filled allocation(s) in pLSCF_poles" + ("" if full else " (helpers followed)"), witness="missing", file=f, node=r)
 
 
 PL = "functions.plscf"
